@@ -11,12 +11,16 @@ CHECKS = {
              note="Same trusted base as C02; places are judged from the observed cards only. Known finding KF-HJ1 (wrong re-instatement) is attributed by a TLA+ predicate.", tech=TLA, ref='5/C03', engine='tlc-hj'),
  'C04': dict(text="The live regular expressions are translated to NFAs over the partition of Unicode induced by their character classes; TLC explores the complete product automaton (EventCodes.tla) and evaluates every union / disjointness clause in every product state: a decision for all strings, no length bound. A witness of every product state and transition is checked against the real re engine for all exported patterns.",
              note="Trusted: TLC, CPython re for the (regular) construct set used; the translator is not trusted (any disagreement with re on a product state or transition is a machinery failure).", tech="regex -> NFA product automaton explored exhaustively by TLC (complete state space), bound to re by state/transition witnesses", ref='5/C04', engine='tlc-lang'),
+ 'C05': dict(text="The reference functions of C01 and C11 are proved monotone by TLC (MC_Athlon, MC_Junior); the real functions of all six systems (combined events with and without age factor, Hungarian on the monotone side of its parabola, Tyrving, QuadKids, Sportshall, Bulgarian) are swept over their grids, run-length encoded, and TLC checks monotonicity over all adjacent pairs, integer results, the bounds (QuadKids 10-100, Bulgarian 0-150, never negative) and hand-timed <= electronic for Tyrving on the observed values.",
+             note="Hungarian: monotone side and integer-ness only. Quick tier strides long grids (every run boundary between sampled marks is still an observed adjacent pair); thorough is complete for the junior systems.", tech="TLA+ monotonicity/bounds predicates + TLC theorems on the references + TLC validation of run-length-encoded sweeps", ref='5/C05', engine='tlc-fn'),
  'C06': dict(text="TLC checks the transcribed string algorithms (round-up, h:mm:ss formatting with carry) against the exact arithmetic definitions on the whole reduced-alphabet domain; the real round_up_str_num / format_seconds_as_time / parse_hms are swept over the same domain, seeded full-alphabet strings, the 0.001 s grid with all carry classes, floats with arithmetic residue and junk text, and TLC judges every observation with the same exact-integer relations (RoundUpOK, FormatFail, ParseFail, ParseTotalFail).",
              note="Reduced digit alphabet {0,5,9} / {0,1,5,9} for the exhaustive part; durations logged exactly via fractions.Fraction. Trusted: TLC, the ~20-line text tokenizer of the harness.", tech="exact-integer TLA+ reference relations + TLC domain enumeration + TLC validation of recorded observations", ref='5/C06', engine='tlc-fn'),
  'C08': dict(text="TLC checks log replay and card round trip as invariants of the model, and order independence by exploring every interleaving of every planned round (MC_HJRound); on the real object from_actions(), from_matrix(to_matrix()) and all (small) or many (large) interleavings are executed and TLC compares the observed snapshots.",
              note="Same trusted base as C02. Known finding KF-HJ2 (pass in a jump-off column) attributed by a TLA+ predicate.", tech="TLA+ spec + TLC exhaustive interleaving exploration + trace validation of recorded executions", ref='5/C08', engine='tlc-hj'),
  'C09': dict(text="NeededFail in Athlon.tla is the two-sided inverse relation; TLC proves that the exact threshold satisfies it and is the unique grid mark that does. For every row and every target -10..1500 the real athlon_performance_needed is called, the library's own score of the returned value and of the next-worse grid mark is recorded, and TLC judges every triple; the distance to the exact threshold is reported as drift only.",
              note="The relation is stated against the library's own score (as the property says); C01 binds that score to the formula.", tech="TLA+ relation + TLC theorem (uniqueness) + TLC validation of recorded triples, exhaustive over the target range", ref='5/C09', engine='tlc-fn'),
+ 'C11': dict(text="JuniorScoring.tla evaluates the four junior systems in exact integer arithmetic on centi-marks over the pinned published tables (Tyrving race/jump/piecewise-linear with the hand-timing increments, QuadKids clamp, Sportshall threshold table with beyond-table increments, Bulgarian per-centi table); TLC proves the references monotone, anchored (base mark = 1000 / 10 points) and the Bulgarian tables ordered and reachable. The real functions are swept over every (system, table, gender, event, age) x the 0.01 grid in every documented input form, run-length encoded, and TLC checks the reference at both ends of every run; the live tables are dumped and checked for order, reachability through the public function and normalised keys.",
+             note="Published tables = pinned snapshot refdata/junior.json (pinned commit + recorded fix: corrections). Known findings: repeated thresholds in the Sportshall 800 m column.", tech="exact-integer TLA+ reference + TLC theorems + TLC validation of run-length-encoded sweeps in all input forms", ref='5/C11', engine='tlc-fn'),
  'C13': dict(text="TLC proves the reference functions AgeGroups!TF / XC (completed-years ages on 31 Aug, 31 Dec and the day, civil-date arithmetic in integers) total, monotone in the birth date and option-independent; the real calc_uka_age_group is swept over competition dates of a full leap cycle x birth-date windows around every anniversary for ages 0-110 (thorough: the complete 110-year birth axis), five option / input-form columns, recorded run-length encoded; TLC evaluates the rule text at every birth date of every run and the structural clauses on all dates.",
              note="Rule-text equality asserted for TF 1 Jan-30 Sep, XC/ROAD 1 Oct-30 Aug; one leap cycle 2021-2024. Trusted: TLC, datetime.date ordinals.", tech="exact-integer TLA+ reference function + TLC theorems on the reference + TLC validation of run-length-encoded sweeps", ref='5/C13', engine='tlc-fn'),
  'C16': dict(text="TLC explores three PlusCal sub-models at source-line granularity (lazily built table, per-call scratch on a shared grader, bounded cache at its limit) for 3 threads and every interleaving: the variants transcribing the code as it is now satisfy Linearizable / NoError, the as-it-was variants are refuted in the same run. The real functions are executed under a deterministic sys.settrace line scheduler, every schedule with <= 1 (quick) / 2 (thorough) forced pre-emptions at AST-detected visible lines, each execution in its own forked process (real first calls); TLC validates every recorded execution (result = single-threaded result per thread; published tables never partial).",
